@@ -235,6 +235,11 @@ example : lastFor (execInterrupted exDevices exPoint (fun _ => 1) (fun _ => 0) [
 example : replaySafeB exDevices (fun d => if d = "m1" then 9 else 0) (fun _ => 0) [] [.bundle "primary" ["d1"], .set "m1" 9] = false := by
   decide
 
+/-- ... and the data really differs there: the conclusion of Lemma B fails without the hypothesis -/
+example : (exec exDevices { pos := fun d => if d = "m1" then 9 else 0, seq := fun _ => 1 } [.bundle "primary" ["d1"], .set "m1" 9]).2 ≠
+          (exec exDevices { pos := fun _ => 0, seq := fun _ => 1 } [.bundle "primary" ["d1"], .set "m1" 9]).2 := by
+  decide
+
 /-- the hypotheses of the engine-level theorem are satisfiable: a concrete engine state right after a
     checkpoint with run "" open, and a concrete segment -/
 def exSpecs : List DevSpec := [{ name := "m1", kind := "motor" }, { name := "d1", kind := "det", offset := 1 }]
